@@ -50,6 +50,9 @@ pub fn rt_debug_assert(b: bool)
 /// assert!(c): may panic; afterwards c holds (R6)
 #[verifier::external_body]
 pub fn rt_assert(b: bool) ensures b { assert!(b) }
+/// Option::expect(msg): panics on None; afterwards the value is there (R6)
+#[verifier::external_body]
+pub fn opt_expect<T>(o: Option<T>) -> (r: T) ensures o == Some(r) { o.unwrap() }
 /// core::hint::unreachable_unchecked(): UB if reached => obligation `false`
 #[verifier::external_body]
 pub fn unreachable_unchecked<T>() -> T
